@@ -400,23 +400,33 @@ def LenK.sub (m : Nat) : LenK → Option LenK
   | .bounded n => if n > m then some (.bounded (n - m)) else none
   | .dyn => some .dyn
 
-/-- `reduce_t`: shape type from remove_dims, fixed_size only from a constant shape, bounded_size = the operand's own bound -/
+/-- axes known at compile time -/
+def AxisK.static? : AxisK → Option (List Nat)
+  | .cts x => some [x]
+  | .ctt c => some c
+  | _ => Option.none
+
+/-- remove_dims on a shape that is not (constant shape, constant axes): only the rank is tracked -/
+def reduceGeneric (ax : AxisK) (keepdims : Bool) (sh : ShapeK) : Option ShapeK :=
+  match ax.count with
+  | Option.none => Option.none
+  | some n => if keepdims then some sh.lenK.toShapeK else (sh.lenK.sub n).map LenK.toShapeK
+
+/-- `resolve_optype<remove_dims_t>` (remove_dims.hpp:158-256) -/
+def reduceShapeK (ax : AxisK) (keepdims : Bool) (sh : ShapeK) : Option ShapeK :=
+  match sh, ax.static? with
+  | .const l, some axes => (refReduce axes keepdims l).map .const
+  | _, _ => reduceGeneric ax keepdims sh
+
+/-- `reduce_t` traits: fixed_size only from a constant shape (reduce.hpp:542-566), bounded_size = decorator default = the
+    operand's OWN bounded size -/
+def reduceInfo (own : SizeK) (d : ShapeK) : SInfo :=
+  ⟨d, match d with
+      | .const l => .known (prod l)
+      | _ => match own with | .known n => .atMost n | .atMost n => .atMost n | .any => .any⟩
+
 def transferReduce (ax : AxisK) (keepdims : Bool) (i : SInfo) : Option SInfo :=
-  let a := i.seen
-  let ownBound : SizeK := match i.size with | .known n => .atMost n | .atMost n => .atMost n | .any => .any
-  let mk (d : ShapeK) : SInfo := ⟨d, match d with | .const l => .known (prod l) | _ => ownBound⟩
-  match ax with
-  | .none => none
-  | _ =>
-    let static : Option (List Nat) := match ax with | .cts x => some [x] | .ctt c => some c | _ => Option.none
-    match a.shape, static with
-    | .const l, some axes => (refReduce axes keepdims l).map (fun r => mk (.const r))
-    | sh, _ =>
-      match ax.count with
-      | Option.none => none
-      | some n =>
-        if keepdims then some (mk sh.lenK.toShapeK)
-        else (sh.lenK.sub n).map (fun k => mk k.toShapeK)
+  (reduceShapeK ax keepdims i.seen.shape).map (reduceInfo i.size)
 
 def ufuncInfo (k : ShapeK) (z : SizeK) : SInfo :=
   ⟨k, match k with | .const l => .known (prod l) | .clipped b => .atMost (prod b) | _ => z⟩
